@@ -17,6 +17,12 @@ CLAIMED = {
                      "reference (complement for odd k, original for even k) for every enumerated tree c (all leaf kinds, trees "
                      "already containing negations) and EVERY data valuation; the a==b boundaries that separate ge from gt are "
                      "found by the solver, not sampled."),
+    "C19": dict(design_ref="DESIGN.md 7/C19",
+                text="Bounded-exhaustive symbolic execution with the attribute value a solver-chosen element of "
+                     "{0,1,'','a',(),(1,),None,False,True} (and unbounded ints incl. 0): in every value position (comparison and "
+                     "membership operand on either side, attribute/index/call access, selected output, keyword field constraint, "
+                     "rule-head constructor argument, flattened element) the rows equal the reference computed with Python "
+                     "equality only; condition position is the control where truthiness is the meaning."),
 }
 
 NOT_APPLICABLE = {pid: PENDING for pid in ["C%02d" % i for i in range(1, 21)] if pid not in CLAIMED}
